@@ -93,6 +93,18 @@ CHECKS = {
          "run through the real process()/sync path and every outcome is validated.",
          "3 validators; toy application; scenarios sampled (seeded); malformed sync requests belong to C09/C18.",
          "TLC-generated selection table + TLA+ trace monitor of real handler calls and real sync scenarios between in-process nodes", "DESIGN.md section 4 C19"),
+ "C18": ("model_checking",
+         "ConnGater.tla: per-IP score / ban expiry / blacklist, integer clock, separate Sweep action (either answer allowed between expiry and the sweep), rate limiter with window resets; TLC checks ThresholdBans, BannedRefused, BlockedRefused, SweptClean, "
+         "WithinLimitNeverPenalised, AboveLimitPenalised etc. exhaustively (2 IPs incl. IPv6, penalties 10/50/100; 375 k + 979 k states) and generates schedules; every schedule is replayed on real connectionGater / rateLimit objects (1 tick = 2 s, actions mid-second with guard bands, "
+         "timing misses = inconclusive) comparing score, ban list and all gate answers after every step; 13 loopback scenarios on real libp2p hosts (malformed envelope, unknown procedure, rate excess, BanPeer, blacklist: disconnect, refused re-dial both directions, acceptance after expiry).",
+         "Real-time mapping with guard bands; the sweep interval of a running Connection is the 10 s constant; InterceptUpgraded not exercised.",
+         "TLC model checking of ConnGater.tla + replay of TLC schedules on the real gater / rate limiter + loopback scenarios", "DESIGN.md section 4 C18"),
+ "C20": ("model_checking",
+         "Locks.tla interprets lock programs extracted from the CURRENT sources by a go/ast extractor (57 programs: blockCache, DataAccess bulk lookups, certificate.Pool, EventEmitter, diffdb views, block-sync collector) under Go RWMutex semantics (a waiting writer blocks new readers): "
+         "NoDeadlock, NoRace (lockset), ExactlyOnce (lost update) checked exhaustively per scenario. Every prediction is only a verdict once reproduced on the real code by the stress driver (readers vs a real Executer writer, bulk lookups with multiset checks, pool, emitter, diffdb; watchdog + goroutine dump) in a normal and a -race build; "
+         "observed-but-unmodelled failures are violations too, predicted-but-not-reproduced ones are logged.",
+         "The Go memory model is not specified in TLA+ (the race detector is the implementation-side recorder); stress durations bound what is reproduced.",
+         "go/ast lock-program extraction + TLC (Locks.tla) + stress/-race reproduction on the real code", "DESIGN.md section 4 C20"),
 }
 NA_REASON = "check not built yet in this round (planned, see DESIGN.md section 4); not claimed until its TLA+ specification and binding exist"
 
